@@ -60,7 +60,10 @@ type Prop struct {
 	Probes []Probe
 	// StepLimitIsViolation: a run that exceeds its step budget "fails to return".
 	StepLimitIsViolation bool
-	StepCap              uint64
+	// CrashIsViolation: a worker process dying inside a run (e.g. out of
+	// memory under ulimit -v) is attributed to that run and reported.
+	CrashIsViolation bool
+	StepCap          uint64
 	// Runs per tier
 	QuickRuns, ThoroughRuns int
 	Level                   string
@@ -209,12 +212,17 @@ func Batch(p *Prop, batchSeed uint64, start, count int, tier Tier, deadline time
 	res := &BatchResult{Prop: p.ID, Discards: map[string]int{}, Probes: map[string]int{}, Faults: map[string]int{}}
 	distinct := map[uint64]bool{}
 	il := map[uint64]bool{}
+	lastCase := os.Getenv("MGSIM_LASTCASE")
 	for i := start; i < start+count; i++ {
 		if time.Now().After(deadline) {
 			res.TimedOut = true
 			break
 		}
 		seed := RunSeed(batchSeed, p.ID, i)
+		if lastCase != "" {
+			// flushed before the run: if the process dies, the driver knows which run it was
+			os.WriteFile(lastCase, []byte(fmt.Sprintf("%d %d\n", i, seed)), 0o644)
+		}
 		out, r := ExecSeed(p, seed, tier)
 		res.Runs++
 		res.MapEvents += r.MapEvents
@@ -306,6 +314,9 @@ type ReplayFile struct {
 	TraceHash      string        `json:"trace_hash"`
 	Sample         any           `json:"sample,omitempty"`
 	Probe          string        `json:"probe,omitempty"`
+	// SeedOnly: re-execute the run from its seed (no tape was saved because the process died)
+	SeedOnly    bool `json:"seed_only,omitempty"`
+	ExpectCrash bool `json:"expect_crash,omitempty"`
 }
 
 func WriteReplay(path string, p *Prop, seed, batchSeed uint64, idx int, tier Tier, vals []uint32, out Outcome, r *simrt.Run) error {
